@@ -505,6 +505,11 @@ func (p *Prog) resetNode(n ast.Node, fld string, depth int) bool {
 			}
 		}
 	}
+	for _, c := range p.NodeCalls(n) {
+		if p.CalleeName(c) == "builtin.clear" && len(c.Args) == 1 && p.IsField(c.Args[0], fld) {
+			return true
+		}
+	}
 	if depth <= 0 {
 		return false
 	}
